@@ -126,7 +126,11 @@ def gen_model(ch: Chooser, benign: bool):
         """A declaration whose interest lies in its attributes (identical in the nasty and the benign variant)."""
         ts = ch.choice([{"base": "integer", "kind": None}, {"base": "real", "kind": "kind(1.0d0)"}, {"base": "logical", "kind": None},
                         {"base": "integer", "kind": "selected_int_kind(9)"}, {"base": "character", "len": "max(2, 3)", "kind": None},
-                        {"base": "complex", "kind": None}])
+                        {"base": "complex", "kind": None},
+                        # a slash / a character literal inside the type parameters
+                        {"base": "character", "len": "8/2", "kind": None}, {"base": "integer", "kind": "16/2"},
+                        {"base": "character", "len": "len('axb')" if benign else "len('a<b')", "kind": None},
+                        {"base": "real", "kind": "kind(1.0d0)*8/8"}])
         d = _var(name, ts)
         shape = ch.choice([None, None, "(3)", "(2, 0:4)", "(:)", "(:, :)"])
         if where == "arg":
@@ -136,7 +140,7 @@ def gen_model(ch: Chooser, benign: bool):
                 d["dimattr"] = shape
             if d["intent"] != "out" and ch.bool(1, 4) and not d["dimattr"] and ts["base"] != "character":
                 d["attrs"].append("value") if not d["optional"] and d["intent"] in ("in", None) else None
-            elif ch.bool(1, 4):
+            elif ch.bool(1, 4) and d["intent"] != "in":
                 d["attrs"].append(ch.choice(["target", "volatile"]))
             return d
         if shape in ("(:)", "(:, :)"):
@@ -203,7 +207,10 @@ def gen_model(ch: Chooser, benign: bool):
             if ch.bool(1, 2):
                 p["result"] = fresh("Res")          # (mixed case on purpose: the heading shows the source spelling)
                 p["exec"] = [f"{p['result']} = 1"]
-        if ch.bool(1, 3) and all(d.get("d") != "var" or not d.get("intent") or (d["ts"]["base"] != "character" or True) for d in p["decls"]):
+        interoperable = not any(d.get("d") == "var" and d["ents"][0]["name"] in p["args"][1:] and
+                                (d["ts"]["base"] == "character" or d.get("optional") or "value" in d.get("attrs", []))
+                                for d in p["decls"])
+        if ch.bool(1, 3) and interoperable:
             # a binding label: the literal must be shown as written
             p["bind"] = {"name": ch.choice(["'Mixed_Case'", '"c_name_2"', "'X'"]) if ch.bool(2, 3) else None}
         m["procs"].append(p)
@@ -214,9 +221,10 @@ def gen_case(ch: Chooser, excl=()):
     data = ch.d
     proj_n, feats = gen_model(Chooser(data), False)
     proj_b, _ = gen_model(Chooser(data), True)
-    rnd = Chooser(b"")
-    files_n, _ = render.render_project(proj_n, rnd, features={"comments": False, "continuations": False})
-    files_b, _ = render.render_project(proj_b, rnd, features={"comments": False, "continuations": False})
+    # the same spelling choices for both variants (keyword case, attribute order, result / bind order ...)
+    rbytes = bytes(reversed(data))
+    files_n, _ = render.render_project(proj_n, Chooser(rbytes), features={"comments": False, "continuations": False})
+    files_b, _ = render.render_project(proj_b, Chooser(rbytes), features={"comments": False, "continuations": False})
     options = {"project": "P", "src_dir": "./src", "output_dir": "./doc", "preprocess": False, "parallel": 0,
                "display": ["public", "private", "protected"], "proc_internals": True, "search": False, "incl_src": True}
     if len(data) and data[-1] % 3 == 0:
@@ -323,6 +331,9 @@ def shown_declarations(raw):
         spec = left[0]
         mm = re.match(r"^([a-z ]+?)\s*(?:\((.*)\))?$", spec, re.I | re.S)
         if not mm:
+            namecell = texts[i + 1]
+            nm = re.split(r"[(\[*]", namecell)[0].strip().lower()
+            out.setdefault(nm, []).append({"base": None, "raw": spec, "kind": None, "len": None, "proto": None, "dim": None, "attrs": []})
             continue
         base = " ".join(mm.group(1).lower().split())
         kind = ln = proto = None
@@ -414,6 +425,9 @@ def check(case) -> Result:
             shown_d.setdefault(nm, []).extend((rel, r) for r in rows)
     for d in case.get("decls", []):
         for rel, r in shown_d.get(d["name"].lower(), []):
+            if r["base"] is None:
+                res.fail("declaration-altered:type-text", f"{rel}: the type of {d['name']} is shown as {r['raw']!r}")
+                continue
             for field in ("base", "kind", "len", "proto", "dim"):
                 want, got = d[field], r[field]
                 if field == "len" and want is None and d["base"] == "character":
@@ -432,16 +446,22 @@ def check(case) -> Result:
         mh = re.search(r"<h2>(.*?)</h2>", A[rel][1], re.S)
         if not mh:
             continue
-        text = squash(_html.unescape(re.sub(r"<[^>]+>", "", mh.group(1))))
+        text = re.sub(r"\s+", "", squash(_html.unescape(re.sub(r"<[^>]+>", "", mh.group(1)))))
         want = squash(f"{h['k']} {h['name']}({', '.join(h['args'])})")
         if want not in text:
             res.fail("heading-altered:arguments", f"{rel}: heading {text!r} does not show {want!r}")
         if h.get("result") and squash(f"result({h['result']})") not in text:
             res.fail("heading-altered:result", f"{rel}: heading {text!r} does not show result({h['result']})")
+        b = ""
         if h.get("bind") is not None:
             b = "bind(c" + (f",name={h['bind']['name']}" if h["bind"].get("name") else "") + ")"
             if squash(b) not in text:
                 res.fail("heading-altered:bind", f"{rel}: heading {text!r} does not show {b}")
+        # ... and nothing else after the argument list
+        r_ = squash(f"result({h['result']})") if h.get("result") else ""
+        tail = text[text.index(want) + len(want):] if want in text else None
+        if tail is not None and tail not in (r_ + squash(b), squash(b) + r_):
+            res.fail("heading-altered:suffix", f"{rel}: heading ends with {tail!r}, declared suffix is {r_ + squash(b)!r}")
     if res.failures:
         ok, err = fordapi.gfortran_check({k: v for k, v in case["nasty"].items() if k.endswith(".f90")})
         if not ok:
